@@ -92,9 +92,15 @@ def gen_base(rng, tier, index):
                         "stop": rng.choice([0, 0.02, 0.1])}
     if index % 4 == 1 and n and call["form"] in ("list", "tuple", "gen", "iter", "slow", "deque"):
         call["nones"] = sorted({rng.randrange(n) for _ in range(rng.randint(1, 3))})   # None as a data item
-    return {"pool": "factory" if index % 4 == 3 else "functor", "workers": workers,
+    case = {"pool": "factory" if index % 4 == 3 else "functor", "workers": workers,
             "wq": rng.choice([None, 1, 2, 0.5, 1.0, 1.0, 2.0]), "rq": rng.choice([None, None, 1, 2, 3]),
             "calls": [call], "ready_first": rng.random() < 0.2}
+    if index % 8 == 4 and not (call.get("twins") or call.get("exc_results")):
+        # two more calls on the same pool, all three result generators created before the first one is consumed
+        second = dict(call, n=max(0, n - 3), salt=call["salt"] + 1)
+        case["calls"] = [call, second, dict(call, n=0)] if index % 16 == 4 else [dict(call, n=0), call, second]
+        case["create_all_first"] = True
+    return case
 
 
 def owns(kind, mech, case, result):
